@@ -600,6 +600,9 @@ theorem resolveClassRefAsMulticlass_vis : VSpec ws0 (resolveClassRefAsMulticlass
     · exact PC.pure (h.exit (by ins hn))
   · exact PC.pure (h.exit (by ins hn))
 
+omit hr hn in
+theorem namesClassOnly_silent (x : PTree) : Silent (namesClassOnly x) := by unfold namesClassOnly; silent
+
 theorem indexParentClassList_vis : VSpec ws0 (indexParentClassList r n) n := by
   intro c f hc
   have h := At.start hc
@@ -627,9 +630,44 @@ theorem indexParentClassList_vis : VSpec ws0 (indexParentClassList r n) n := by
     · refine PC.silent_bind currentDefmId_silent h ?_
       intro did c3 h
       split
-      · refine hloop ?_ c3 h
-        intro x gx b
-        exact (resolveClassRefAsMulticlass_vis hr (gx.ok hn)).bind_silent (by intros; silent)
+      · rename_i defmId
+        have hdm : ∀ x, Got n (Ast.is .ClassRef) x → VSpec ws0 (defmMulticlassParent r defmId x) x := by
+          intro x gx
+          unfold defmMulticlassParent
+          exact (resolveClassRefAsMulticlass_vis hr (gx.ok hn)).bind_silent (by intros; silent)
+        split
+        · exact PC.pure (h.exit (by ins hn))
+        · rename_i first rest hcl
+          have hord := Ast.children_sorted hn (Ast.is .ClassRef)
+          have hcl' : Ast.children n (Ast.is .ClassRef) = first :: rest := hcl
+          rw [hcl', List.pairwise_cons] at hord
+          have gfirst : Got n (Ast.is .ClassRef) first := Got.mem (by rw [hcl']; simp)
+          have grest : ∀ x ∈ rest, Got n (Ast.is .ClassRef) x := fun x hx => Got.mem (by rw [hcl']; simp [hx])
+          refine PC.visit_bind (hdm first gfirst) h (by djs hn) ?_
+          intro _ c4 h
+          refine PC.visitL_bind (forIn_vis hord.2 ?_) h ?_ ?_
+          · intro x hx b c5 f5 hc5
+            refine PC.bind ((namesClassOnly_silent x).run c5) ?_
+            intro nb c6 hs6
+            have hc6 := hc5.sil hs6
+            split
+            · refine PC.bind (resolveClassRefAsClass_vis hr ((grest x hx).ok hn) c6 f5 hc6) ?_
+              intro _ c7 h7
+              exact PC.pure (Vis.sil_left hs6 h7)
+            · refine PC.bind (hdm x (grest x hx) c6 f5 hc6) ?_
+              intro _ c7 h7
+              exact PC.pure (Vis.sil_left hs6 h7)
+          · intro a ha b hb
+            simp only [List.nil_append, List.mem_singleton] at ha
+            subst ha
+            exact Or.inl (hord.1 b hb)
+          · intro _ c5 h5
+            refine PC.pure (h5.exit ?_)
+            intro v hv
+            simp only [List.nil_append, List.cons_append, List.mem_cons] at hv
+            rcases hv with rfl | hv
+            · exact gfirst.inside hn
+            · exact (grest v hv).inside hn
       · exact PC.panic
 
 theorem indexFieldDef_vis : VSpec ws0 (indexFieldDef r n) n := by
